@@ -196,8 +196,29 @@ def flatten(lines, fvec, frc, warnings, subname):
             stack.append(["do", len(ins) - 1])
             continue
         if s in ("end do", "enddo"):
+            # the loop is unrolled to 0, 1 or 2 iterations: [br end] body [br end] body' end:
             top = stack.pop()
-            ins[top[1]][1] = len(ins) + 1
+            head = top[1]
+            body = [list(i) for i in ins[head + 1:]]
+            off = len(body) + 1
+            counter[0] += 1
+            again = "?%d:loop-again" % counter[0]
+            flags.add(again)
+            ins.append(["br", None, [[again, True]]])
+            second = len(ins) - 1
+            for i in body:
+                j = list(i)
+                if j[0] in ("br", "jmp") and j[1] is not None and j[1] > head + 1:
+                    j[1] = j[1] + off
+                if j[0] == "br":
+                    j[2] = [list(l) for l in j[2]]
+                ins.append(j)
+            # pending goto-999 jumps inside the copied body
+            for k in range(second + 1, len(ins)):
+                if ins[k][0] == "jmp" and ins[k][1] is None:
+                    goto999.append(k)
+            ins[head][1] = len(ins) + 1
+            ins[second][1] = len(ins) + 1
             continue
         if re.match(r"goto 999", s):
             ins.append(["jmp", None])
